@@ -5,13 +5,20 @@ package c03
 
 import (
 	"math/rand/v2"
+	"os"
 	"sync"
 	"testing"
 	"testing/synctest"
 
 	"verif/harness/lc"
+	"verif/harness/res"
 	"verif/harness/vk"
 )
+
+func TestMain(m *testing.M) {
+	res.Register() // the remote scenarios unmarshal typed resources
+	os.Exit(m.Run())
+}
 
 func TestC03(t *testing.T) {
 	vk.Run(t, "C03", "exploration", func(c *vk.C) {
@@ -40,6 +47,16 @@ func TestC03(t *testing.T) {
 
 				rng := rand.New(rand.NewPCG(uint64(c.Seed), uint64(k)))
 				opts := lc.Opts{Mix: "c03", Actors: 2 + rng.IntN(5), Steps: 6 + rng.IntN(9), IDs: 1 + rng.IntN(2), MaxDelay: 3}
+
+				// every fourth scenario runs the helpers through the gRPC client adapter (loopback transport, real server handlers), against
+				// servers with and without the native lifecycle RPCs
+				remote := ""
+				if k%4 == 3 {
+					remote = lc.RemoteVariants[(k/4)%len(lc.RemoteVariants)]
+					opts.Wrap = lc.RemoteWrap(remote)
+
+					c.Count("remote_scenarios_"+remote, 1)
+				}
 
 				var o *lc.Outcome
 
